@@ -50,8 +50,8 @@ impl Property for C06 {
     }
     fn budget(tier: Tier) -> u64 {
         match tier {
-            Tier::Quick => 6_000,
-            Tier::Thorough => 150_000,
+            Tier::Quick => 16_000,
+            Tier::Thorough => 200_000,
         }
     }
 
@@ -74,6 +74,9 @@ impl Property for C06 {
     }
 
     fn shrink(sc: &Scenario) -> Vec<Scenario> {
+        if std::env::var_os("VERIF_NOSHRINK").is_some() {
+            return Vec::new(); // diagnostic aid for `survey`: show violations as generated
+        }
         let d = gen::defects();
         gen::shrink(sc)
             .into_iter()
@@ -136,6 +139,22 @@ mod tests {
         let out = run_conn(&s, true);
         assert!(out.v6.is_none(), "{:?}", out.v6);
         assert!(out.errors.iter().any(|e| e.1 == "connect" && e.2 == std::io::ErrorKind::TimedOut));
+    }
+
+    /// diagnostic: which known defects does the tree under test have (never fails)
+    #[test]
+    fn print_defects() {
+        let d = crate::wirekit::gen::defects();
+        println!("DEFECTS {d:?}");
+        for (n, s) in [
+            ("a", crate::wirekit::gen::canary_lost_ack()),
+            ("b", crate::wirekit::gen::canary_zero_window()),
+            ("c", crate::wirekit::gen::canary_lost_hsack()),
+            ("d", crate::wirekit::gen::canary_hs_budget()),
+        ] {
+            let out = run_conn(&s, false);
+            println!("canary {n}: {:?} {}", out.v6.as_ref().map(|v| v.class.clone()), serde_json::to_string(&s).unwrap());
+        }
     }
 
     #[test]
